@@ -393,6 +393,65 @@ Definition site_honoured (sv : server) (c : site) : bool :=
   (negb (fst (s_idle c)) || honours (sv_idle sv) (snd (s_idle c))) &&
   honours (sv_maxhdr sv) (s_maxhdr c).
 
+(* ---- EVERY server object NewServer creates for one listener ----
+   NewServer, statement by statement: (1) makeHTTPServerWithTimeouts builds the TCP http.Server with the merged
+   timeouts (MaxHeaderBytes still 0); (2) makeHTTPServerWithHeaderLimit stores the merged header limit in it (when
+   a site configures one); (3) when the listener serves TLS, HTTP/2 is on and the QUIC flag is set, the HTTP/3
+   server is built by COPYING Addr, Handler, TLSConfig and MaxHeaderBytes from the TCP server as it is AT THAT
+   MOMENT.  Nothing else is copied: http3.Server has no read/header/write timeout fields, and its QUICConfig (whose
+   MaxIdleTimeout is HTTP/3's idle timeout) stays nil = the library default. *)
+Record h3server := { h3_maxhdr : Z; h3_idle : Z (* 0: QUICConfig nil / MaxIdleTimeout unset *) }.
+Definition ns_timeouts (dflt : server) (group : list site) : server :=
+  let a := fold_left tacc_step group tacc0 in
+  {| sv_read := or_default (a_read a) (sv_read dflt); sv_rhdr := or_default (a_rhdr a) (sv_rhdr dflt);
+     sv_write := or_default (a_write a) (sv_write dflt); sv_idle := or_default (a_idle a) (sv_idle dflt);
+     sv_maxhdr := 0 |}.
+Definition ns_header (s : server) (group : list site) : server :=
+  let m := fold_left hstep (map s_maxhdr group) 0 in
+  {| sv_read := sv_read s; sv_rhdr := sv_rhdr s; sv_write := sv_write s; sv_idle := sv_idle s;
+     sv_maxhdr := if 0 <? m then m else sv_maxhdr s |}.
+Definition ns_h3 (s : server) (tls h2 quic : bool) : option h3server :=
+  if tls && h2 && quic then Some {| h3_maxhdr := sv_maxhdr s; h3_idle := 0 |} else None.
+Definition new_servers (dflt : server) (group : list site) (tls h2 quic : bool) : server * option h3server :=
+  let s1 := ns_timeouts dflt group in
+  let s2 := ns_header s1 group in
+  (s2, ns_h3 s2 tls h2 quic).
+
+(* ---- a SEQUENCE of uploads through one proxy upstream whose failure counting is on (max_fails, fail_timeout
+   longer than the sequence) ----
+   Proxy.ServeHTTP after the forward of an attempt, in the order of its checks: no error -> done; the too-large
+   error of the body reader (however the transport wrapped it) -> 413, returned BEFORE the failure accounting;
+   any other error of the forward is counted as a failure of the backend (Fails + 1 for fail_timeout) -> 502.
+   Before the forward: Select answers nil when the backend has max_fails unexpired failures -> 502, nothing sent. *)
+Definition proxy_after_forward (e : option rerr) (backend_status : Z) : Z * bool :=
+  match e with
+  | None | Some EOF => (backend_status, false)
+  | Some TooLarge => (413, false)
+  | Some ErrOther => (502, true)
+  end.
+(* one upload of [len] bytes: (status, failure count of the upstream afterwards); None = nothing reaches the backend
+   because no host is available *)
+Definition seq_step (k : consumer) (limit max_fails fails : Z) (chunked : bool) (len : nat) : Z * Z :=
+  let over := limit <? Z.of_nat len in
+  let e := if over then Some TooLarge else Some EOF in
+  match k with
+  | ProxyStream =>
+      if max_fails <=? fails then (502, fails)
+      else let '(st, failed) := proxy_after_forward e 200 in (st, if failed then fails + 1 else fails)
+  | ProxyBuffered =>
+      (* the body is buffered before any host is selected: too large -> 413 at once *)
+      if over then (413, fails)
+      else if max_fails <=? fails then (502, fails)
+      else let '(st, failed) := proxy_after_forward e 200 in (st, if failed then fails + 1 else fails)
+  | Fastcgi => (consumer_status Fastcgi (negb chunked) e 200, fails)
+  end.
+Fixpoint seq_run (k : consumer) (limit max_fails fails : Z) (qs : list (bool * nat)) : list (Z * Z) :=
+  match qs with
+  | [] => []
+  | (ch, len) :: r => let '(st, f') := seq_step k limit max_fails fails ch len in
+                      (st, f') :: seq_run k limit max_fails f' r
+  end.
+
 (* ---- case type for the correspondence check ---- *)
 Inductive case :=
 | CRead (cs : bool) (table : list (bytes * Z)) (path : bytes) (bodylen : nat) (script : list nat)
@@ -418,7 +477,15 @@ Inductive case :=
 (* NewServer on a whole site group (hand-built configs, or parsed from a Casketfile and started) *)
 | CListener (dflt : server) (group : list site) (obs : server)
 (* a request whose header block has the given size against the merged header limit *)
-| CHdr431 (maxhdr reqbytes obs_status : Z).
+| CHdr431 (maxhdr reqbytes obs_status : Z)
+(* NewServer on a site group with TLS sites or not, HTTP/2 on or off, the QUIC flag set or not: EVERY server object
+   it creates — the TCP http.Server and, when there is one, the HTTP/3 server (MaxHeaderBytes, MaxIdleTimeout of
+   its QUICConfig; 0 = unset) *)
+| CServers (dflt : server) (group : list site) (tls h2 quic : bool) (obs : server) (obs_h3 : option (Z * Z))
+(* a sequence of uploads to ONE running site whose proxy upstream counts failures (max_fails 1, fail_timeout 1h):
+   per request (chunked, body length, (status, bytes that reached the backend, prefix ok, sum of the upstream
+   hosts' Fails after the request; -1 = not observable)) *)
+| CSiteSeq (kind : N) (limit : Z) (reqs : list (bool * nat * (Z * Z * bool * Z))).
 
 Definition body_of (n : nat) : list N := map (fun i => N.of_nat (i mod 251)) (seq 0 n).
 
@@ -428,6 +495,34 @@ Definition longest_match_ok (cs : bool) (table : list (bytes * Z)) (path : bytes
   | Some bl => forallb (fun b => negb (path_matches cs path (fst b))
                                  || Nat.leb (length (fst b)) (length (fst bl))) table
   end.
+
+(* the property's statement about the TCP server of a listener, on the observed fields only *)
+Definition listener_spec (dflt : server) (group : list site) (obs : server) : bool :=
+  let field_ok (f : site -> tv) (d o : Z) : bool :=
+    match set_values (map f group) with
+    | [] => o =? d
+    | vs => existsb (Z.eqb o) vs && forallb (stricter_or_eq o) vs
+    end in
+  let hs := map s_maxhdr group in
+  field_ok s_read (sv_read dflt) (sv_read obs) && field_ok s_rhdr (sv_rhdr dflt) (sv_rhdr obs) &&
+  field_ok s_write (sv_write dflt) (sv_write obs) && field_ok s_idle (sv_idle dflt) (sv_idle obs) &&
+  (if forallb (Z.eqb 0) hs then sv_maxhdr obs =? 0
+   else existsb (Z.eqb (sv_maxhdr obs)) hs && (0 <? sv_maxhdr obs) &&
+        forallb (stricter_or_eq (sv_maxhdr obs)) hs) &&
+  forallb (site_honoured obs) group.
+(* ... and about any further server of the same listener (HTTP/3): the same strictest header limit, and the
+   strictest idle timeout where a site configures one *)
+Definition h3_spec (group : list site) (mh idle : Z) : bool :=
+  let hs := map s_maxhdr group in
+  (if forallb (Z.eqb 0) hs then mh =? 0
+   else existsb (Z.eqb mh) hs && (0 <? mh) && forallb (stricter_or_eq mh) hs) &&
+  match set_values (map s_idle group) with
+  | [] => true
+  | vs => existsb (Z.eqb idle) vs && forallb (stricter_or_eq idle) vs
+  end.
+Definition server_eqb (a b : server) : bool :=
+  (sv_read a =? sv_read b) && (sv_rhdr a =? sv_rhdr b) && (sv_write a =? sv_write b) &&
+  (sv_idle a =? sv_idle b) && (sv_maxhdr a =? sv_maxhdr b).
 
 Definition judge (c : case) : N :=
   match c with
@@ -540,23 +635,40 @@ Definition judge (c : case) : N :=
       let m := new_server dflt group in
       let agree := (sv_read m =? sv_read obs) && (sv_rhdr m =? sv_rhdr obs) && (sv_write m =? sv_write obs) &&
                    (sv_idle m =? sv_idle obs) && (sv_maxhdr m =? sv_maxhdr obs) in
-      let field_ok (f : site -> tv) (d o : Z) : bool :=
-        match set_values (map f group) with
-        | [] => o =? d
-        | vs => existsb (Z.eqb o) vs && forallb (stricter_or_eq o) vs
-        end in
-      let hs := map s_maxhdr group in
-      let spec := field_ok s_read (sv_read dflt) (sv_read obs) && field_ok s_rhdr (sv_rhdr dflt) (sv_rhdr obs) &&
-                  field_ok s_write (sv_write dflt) (sv_write obs) && field_ok s_idle (sv_idle dflt) (sv_idle obs) &&
-                  (if forallb (Z.eqb 0) hs then sv_maxhdr obs =? 0
-                   else existsb (Z.eqb (sv_maxhdr obs)) hs && (0 <? sv_maxhdr obs) &&
-                        forallb (stricter_or_eq (sv_maxhdr obs)) hs) &&
-                  forallb (site_honoured obs) group in
-      verdict agree spec
+      verdict agree (listener_spec dflt group obs)
   | CHdr431 maxhdr reqbytes ost =>
       (* net/http: initial read limit = MaxHeaderBytes + 4096; beyond it the answer is 431 *)
       let m := if maxhdr + 4096 <? reqbytes then 431 else 200 in
       verdict (m =? ost) (if maxhdr + 4096 <? reqbytes then ost =? 431 else ost =? 200)
+  | CServers dflt group tls h2 quic obs oh3 =>
+      let '(m, mh3) := new_servers dflt group tls h2 quic in
+      let agree := server_eqb m obs &&
+                   match mh3, oh3 with
+                   | None, None => true
+                   | Some x, Some (mh, idle) => (h3_maxhdr x =? mh) && (h3_idle x =? idle)
+                   | _, _ => false
+                   end in
+      let spec := listener_spec dflt group obs &&
+                  match oh3 with None => true | Some (mh, idle) => h3_spec group mh idle end in
+      verdict agree spec
+  | CSiteSeq kind limit reqs =>
+      let k := match kind with 0%N => ProxyStream | 1%N => ProxyBuffered | _ => Fastcgi end in
+      let ms := seq_run k limit 1 0 (map fst reqs) in
+      let one (x : (bool * nat * (Z * Z * bool * Z)) * (Z * Z)) : bool :=
+        let '((ch, len, (ost, obk, _, ofl)), (mst, mfl)) := x in
+        let over := limit <? Z.of_nat len in
+        (mst =? ost) && ((ofl =? -1) || (mfl =? ofl)) &&
+        (if ost =? 502 then true else if over then backend_gets_ok k limit obk else obk =? Z.of_nat len) in
+      let agree := (length ms =? length reqs)%nat && forallb one (combine reqs ms) in
+      (* EVERY request of the sequence, whatever preceded it: bodies up to the limit arrive intact (200, the whole
+         body at the backend), larger ones are cut at the limit and answered 413; an upload the limit cut off is
+         the client's doing and is not booked as a failure of the backend *)
+      let spec := forallb (fun r : bool * nat * (Z * Z * bool * Z) =>
+                             let '(_, len, (ost, obk, pfx, ofl)) := r in
+                             pfx && (obk <=? limit) && ((ofl =? -1) || (ofl =? 0)) &&
+                             (if limit <? Z.of_nat len then ost =? 413
+                              else (ost =? 200) && (obk =? Z.of_nat len))) reqs in
+      verdict agree spec
   | CStatus over obs =>
       (* a proxied upload: over the limit => the body reader fails with TooLarge => 413;
          within the limit => the proxy relays the backend response itself and returns 0 *)
